@@ -1,12 +1,12 @@
 (* C06 — Alignment evidence is a faithful pileup of the eligible reads.
-   Only statements here; proofs are in proofs/PileupProofs.v; the model is theories/Pileup.v.
+   Only statements here; proofs are in proofs/PileupProofs.v and proofs/PileupMnpTableProofs.v; the model is theories/Pileup.v.
    Vocabulary: [spans r p] = p lies under an M/=/X/D run of r's alignment; [shows r p b] = an M/=/X run aligns query base b
    to p; [eligible g r] = sam.py's filter (has a CIGAR, not supplementary, no H, has a sequence, placed on the gene's
    chromosome, mapped flag, closed-interval test against the wide region); [sample_table g c rs] = Coverage._coverage of
    the read list rs; [multi_ops_ok] / [multi_free] = side conditions on the catalogued multi-substitutions. *)
 From Coq Require Import String.
 From Coq Require Import Permutation.
-From Aldy Require Import Base Consts Pileup PileupProofs Consts_here Consts_wf Exprs_region Tied_region.
+From Aldy Require Import Base Consts Pileup PileupProofs PileupMnpTableProofs Consts_here Consts_wf Exprs_region Tied_region.
 Import List.
 Open Scope Z_scope.
 
@@ -62,16 +62,50 @@ Proof. exact mnp_counted_once. Qed.
 Goal True. idtac "ASSUME C06_mnp_counted_once". Abort.
 Print Assumptions C06_mnp_counted_once.
 
-(* PARTIAL at the table level: the count under m itself is proved for any read set; the counts under m's component
-   substitutions and the reference counts at its later positions are proved per read (C06_mnp_counted_once), their sums over a
-   read set are not stated *)
-Theorem C06_mnp_table_count_partial : forall g c rs indels m, multi_wf g = true -> In m (g_multi g) -> in_bounds g (fst m) = true ->
+(* table level, for any read set: the count under m itself ... *)
+Theorem C06_mnp_table_count : forall g c rs indels m, multi_wf g = true -> In m (g_multi g) -> in_bounds g (fst m) = true ->
   alookup key_eqb (fst m, multi_op (fst (snd m)) (snd (snd m))) indels = None ->
   cov_coverage (sample_table g c rs) indels (fst m, multi_op (fst (snd m)) (snd (snd m)))
   = count (fun r => eligible g r && shows_allb g c r m) rs.
 Proof. exact mnp_table_count. Qed.
-Goal True. idtac "ASSUME C06_mnp_table_count_partial". Abort.
-Print Assumptions C06_mnp_table_count_partial.
+Goal True. idtac "ASSUME C06_mnp_table_count". Abort.
+Print Assumptions C06_mnp_table_count.
+
+(* ... the count under each of m's component substitutions (x, ref>b): the eligible reads that show b at x but NOT the whole of m
+   (the ones that show all of m are counted once, under m) ... *)
+Theorem C06_mnp_component_table_count : forall g c m ck b, multi_wf g = true -> In m (g_multi g) -> In ck (comps m) ->
+  snd ck = (fst (snd ck), sub_op (base g (fst (snd ck))) b) -> in_gene g (fst (snd ck)) = true -> b <> base g (fst (snd ck)) ->
+  forall rs indels, alookup key_eqb (snd ck) indels = None ->
+  cov_coverage (sample_table g c rs) indels (snd ck)
+  = count (fun r => eligible g r && (shows r (fst (snd ck)) b && negb (shows_allb g c r m))) rs.
+Proof. exact mnp_component_table_count. Qed.
+Goal True. idtac "ASSUME C06_mnp_component_table_count". Abort.
+Print Assumptions C06_mnp_component_table_count.
+
+(* ... and the reference count at each LATER position of m: the eligible reads that show the reference base there plus the ones
+   that show all of m (sam.py re-appends m's later components as reference observations, so depth stays one per read and base) *)
+Theorem C06_mnp_component_table_ref : forall g c m ck, multi_wf g = true -> In m (g_multi g) -> In ck (comps m) ->
+  in_gene g (fst (snd ck)) = true ->
+  forall rs indels, fst ck <> O -> alookup key_eqb (fst (snd ck), ref_op) indels = None ->
+  cov_coverage (sample_table g c rs) indels (fst (snd ck), ref_op)
+  = count (fun r => eligible g r && (shows r (fst (snd ck)) (base g (fst (snd ck))) || shows_allb g c r m)) rs.
+Proof. exact mnp_component_table_ref. Qed.
+Goal True. idtac "ASSUME C06_mnp_component_table_ref". Abort.
+Print Assumptions C06_mnp_component_table_ref.
+
+(* both component statements from ONE decidable condition on the gene view (PileupMnpTableProofs.multi_ref_ok: every component of
+   every catalogued multi-substitution is a substitution of the gene's reference base, inside the gene; the harness evaluates it
+   on every gene it uses and reports on how many it holds) *)
+Theorem C06_mnp_component_counts : forall g c m ck rs indels, multi_wf g = true -> multi_ref_ok g = true ->
+  In m (g_multi g) -> In ck (comps m) ->
+  let x := fst (snd ck) in let b := nth (fst ck) (snd (snd m)) 0 in
+  (alookup key_eqb (snd ck) indels = None ->
+   cov_coverage (sample_table g c rs) indels (snd ck) = count (fun r => eligible g r && (shows r x b && negb (shows_allb g c r m))) rs) /\
+  (fst ck <> O -> alookup key_eqb (x, ref_op) indels = None ->
+   cov_coverage (sample_table g c rs) indels (x, ref_op) = count (fun r => eligible g r && (shows r x (base g x) || shows_allb g c r m)) rs).
+Proof. exact mnp_component_counts. Qed.
+Goal True. idtac "ASSUME C06_mnp_component_counts". Abort.
+Print Assumptions C06_mnp_component_counts.
 
 (* the RefSeq-mapped part lies inside the bounds used for folding foreign substitutions into "_" *)
 Theorem C06_in_gene_in_bounds : forall g x, in_gene g x = true -> in_bounds g x = true.
@@ -216,7 +250,7 @@ Definition ex_r1 : read := mk_read (s "f1") 102 [(0, 2); (1, 1); (0, 3); (2, 2);
 Definition ex_r2 : read := mk_read (s "f1") 104 [(4, 2); (7, 3)] (s "TTACG") None 7 false false false.
 Definition ex_sup : read := mk_read (s "f2") 104 [(0, 3)] (s "ACG") None 60 false false true.
 
-Example C06_example_wf : multi_wf ex_g = true /\ eligible ex_g ex_r1 = true /\ eligible ex_g ex_r2 = true /\ eligible ex_g ex_sup = false.
+Example C06_example_wf : multi_wf ex_g = true /\ multi_ref_ok ex_g = true /\ eligible ex_g ex_r1 = true /\ eligible ex_g ex_r2 = true /\ eligible ex_g ex_sup = false.
 Proof. vm_compute. repeat split. Qed.
 
 (* the complete catalogued AC>GT is counted once, under that variant, at its first position; its second position is
@@ -228,6 +262,14 @@ Example C06_mnp_counted_once_example :
   map (fun p => depth (read_obs ex_g here ex_r1) p) [101; 102; 103; 104; 105; 106; 107; 108; 109; 110] = [0; 1; 1; 1; 1; 1; 1; 1; 1; 0] /\
   kcount (read_obs ex_g here ex_r1) (104, s "insA") = 1.
 Proof. vm_compute. repeat split. Qed.
+
+(* the component theorems' premises hold for the second component (105, C>T) of the catalogued AC>GT, and both sides are 0 resp. 1 *)
+Example C06_mnp_component_example :
+  let ck := (1%nat, (105, s "C>T")) in let m := (104, (s "AC", s "GT")) in
+  In m (g_multi ex_g) /\ In ck (comps m) /\ snd ck = (105, sub_op (base ex_g 105) 84) /\ in_gene ex_g 105 = true /\ 84 <> base ex_g 105 /\
+  cov_coverage (sample_table ex_g here [ex_r1; ex_sup; ex_r2]) [] (105, s "C>T") = 0 /\
+  cov_coverage (sample_table ex_g here [ex_r1; ex_sup; ex_r2]) [] (105, s "_") = 2.
+Proof. vm_compute. repeat split; try (left; reflexivity); try (right; left; reflexivity); discriminate. Qed.
 
 Example C06_table_example :
   map (fun p => cov_total_pos (sample_table ex_g here [ex_r1; ex_sup; ex_r2]) p) [103; 104; 105; 106; 107] = [1; 2; 2; 2; 1] /\
